@@ -30,7 +30,7 @@ def handlers : List (String → Json → Option Json) := [
   handleExec,
   handleEpr,
   handleAsm,
-  handleSdk]
+  handleSdk, handleSdkSem]
 
 def dispatch (j : Json) : Json :=
   match (jField? j "op").bind jStr? with
